@@ -253,7 +253,7 @@ func (propC16) Exec(x any, choices []int32) RunOut {
 	c := x.(PoolCase)
 	w := &poolWorld{}
 	var (
-		nontrivial bool
+		nontrivial  bool
 		timerInSend uint64
 	)
 	res := simrt.Run(c.Sched.config(choices), func() {
